@@ -112,13 +112,12 @@ Definition rk_acc_events (scale : string) : list event :=
      [ELaunch "forward._rk_accumulate_activation_velocity" [] ["d.act_dot"; scale] ["act_dot_rk"]] []].
 
 (* perturb: position from qpos_t0 with the CURRENT d.qvel, then velocity from qvel_t0 with d.qacc,
-   then activation from act_t0 with d.act_dot, limit False; all scaled by a *)
+   then activation from act_t0 with d.act_dot by plain Euler (_rk_perturb_activation); all scaled by a *)
 Definition rk_perturb_events : list event :=
   [ELaunch "forward._next_position" [] (jnt_model_args ++ ["qpos_t0"; "d.qvel"; "a"]) ["d.qpos"];
    ELaunch "forward._next_velocity" [] ["m.opt.timestep"; "qvel_t0"; "d.qacc"; "a"] ["d.qvel"];
    EIf "m.na and act_t0 is not None"
-     [ELaunch "forward._next_activation" []
-        (act_model_args ++ ["act_t0"; "d.act_dot"; "d.actuator_velocity"; "a"; "False"]) ["d.act"]] []].
+     [ELaunch "forward._rk_perturb_activation" [] ["m.opt.timestep"; "act_t0"; "d.act_dot"; "a"] ["d.act"]] []].
 
 Definition rk4_events : list event :=
   [EAssign "A" "[0.5, 0.5, 1.0]";
